@@ -25,6 +25,10 @@ def polygon_input(case, pose, num):
         seq = seq + [seq[0]]
     elif form["dup"] == 2:
         seq = [seq[0], seq[-1]] + seq[1:]
+    elif form["dup"] == 3:
+        seq = [seq[0]] + seq
+    elif form["dup"] == 4:
+        seq = [seq[0], seq[1], seq[0]] + seq[2:]
     return [mk_point(P, pose, num) for P in seq]
 
 
